@@ -161,6 +161,9 @@ func (e *Engine) lookupName(name string, se *SpecEnv) (Val, bool) {
 	if v, ok := se.st.ghost[name]; ok {
 		return v, true
 	}
+	if gv, ok := e.cs.GhostVars[name]; ok {
+		return e.ghostArray(se.st, gv, se), true
+	}
 	if se.fr != nil && se.fr.iterOf != nil {
 		switch name {
 		case "visited":
@@ -323,8 +326,18 @@ func (e *Engine) knownNames(se *SpecEnv) string {
 
 func (e *Engine) specIndex(a, i Val, se *SpecEnv) Val {
 	if a.T == nil && len(a.L) == 1 {
-		// ghost set (e.g. the visited set of a map iteration)
-		return mkBool(Select(a.L[0], i.L[0]))
+		// ghost array (the visited set of a map iteration, a declared ghost variable, ...)
+		sel := Select(a.L[0], i.L[0])
+		if strings.HasPrefix(string(sel.Sort), "(Array ") {
+			return Val{T: nil, L: []Term{sel}, G: a.G}
+		}
+		if a.G != nil {
+			return Val{T: e.specType(a.G.Type, se), L: []Term{sel}}
+		}
+		if sel.Sort == SInt {
+			return mkInt(sel)
+		}
+		return mkBool(sel)
 	}
 	if mapTypeOf(a.T) != nil {
 		return e.mapValueAt(se.st, a, i)
@@ -690,6 +703,26 @@ func (e *Engine) evalCall(x *Expr, se *SpecEnv) Val {
 			as = append(as, arg(i))
 		}
 		return e.applyCallbackPure(fv, "fnval", as, se)
+	case "addr":
+		// addr(p.f): pointer to the struct embedded by value in field f of *p (a first-class sub-object reference)
+		fe := x.Args[0]
+		if fe.Op != "field" {
+			panic(unsupported("addr() expects a field expression"))
+		}
+		base := e.evalSpec(fe.Args[0], se)
+		loc := e.locOf(base)
+		stt, ok := loc.T.Underlying().(*types.Struct)
+		if !ok {
+			panic(unsupported("addr(): %s is not a struct", loc.T))
+		}
+		for i := 0; i < stt.NumFields(); i++ {
+			if stt.Field(i).Name() == fe.Name {
+				off, _ := e.lay.fieldRange(stt, i)
+				ft := resolve(stt.Field(i).Type(), se.env)
+				return Val{T: types.NewPointer(ft), L: []Term{e.subRef(loc.Ref, loc.Root, loc.Off+off)}}
+			}
+		}
+		panic(unsupported("addr(): no field %s", fe.Name))
 	case "mark":
 		// mark(x): an always-true marker used purely as an instantiation trigger
 		a := arg(0)
@@ -861,4 +894,24 @@ func (e *Engine) evalTypeInv(v Val, se *SpecEnv) Val {
 	}
 	inner := se.with(ti.Recv, v)
 	return mkBool(e.evalBool(ti.Body, inner))
+}
+
+func (e *Engine) ghostSort(gv *GhostVar, se *SpecEnv) Sort {
+	t := e.specType(gv.Type, se)
+	ls := e.lay.Leaves(t)
+	if len(ls) != 1 {
+		panic(unsupported("ghost variable %s of composite type", gv.Name))
+	}
+	s := ls[0].Sort
+	for i := 0; i < gv.Dims; i++ {
+		s = ArrSort(SInt, s)
+	}
+	return s
+}
+
+func (e *Engine) ghostArray(st *State, gv *GhostVar, se *SpecEnv) Val {
+	if v, ok := st.ghost[gv.Name]; ok {
+		return v
+	}
+	return Val{T: nil, L: []Term{e.ctx.Const("ghost_"+gv.Name+"_0", e.ghostSort(gv, se))}, G: gv}
 }
